@@ -68,41 +68,22 @@ def classify(c: dict, obs: str, detail: str) -> str | None:
     return None
 
 
-# --------------------------------------------------------------------------- which repairs does /repo contain?
-
-FIX_STATE: set[str] = set()
+# --------------------------------------------------------------------------- fixed findings = regression witnesses
 
 
-def probe_fixes() -> set[str]:
-    """The model carries both the rule as first found and the repaired rule for findings F1, F3, F4, F5, F9
-    (proposed_fixes/ready/C19-F*.diff).  Which one /repo currently implements is observed on each finding's own
-    witness (decision only); the model is instantiated accordingly (`fx=` token).  A finding whose repair is
-    present must be listed as `fixed` in known_findings: its numeric failure is then a VIOLATION again."""
-    wit = {f["id"]: f["witness"] for f in core.load_known_findings() if str(f.get("id", "")).startswith("C19-")}
-    present: set[str] = set()
-
-    def obs_of(fid):
-        c = wit[fid]
-        fam = F.FAMILIES[c["fam"]]
-        mp = L.infer(fam.build(c))
-        model = L.load_ir(mp)
-        try:
-            cnt = fam.fuse(model)
-        except Exception:
-            return "EXC"
-        return L.observe(model, cnt, fam.ops, {v.name for v in mp.graph.input})
-
-    tests = {
-        "F1": lambda o: not fired(o),
-        "F3": lambda o: "transA=1;transB=0" in o,
-        "F4": lambda o: not fired(o) and o != "EXC",
-        "F5": lambda o: o != "EXC",
-        "F9": lambda o: o != "EXC",
-    }
-    for k, is_fixed in tests.items():
-        if f"C19-{k}" in wit and is_fixed(obs_of(f"C19-{k}")):
-            present.add(k)
-    return present
+def fixed_findings() -> list[dict]:
+    """Entries of the `fixed` lists (known_findings.json and known_findings.d/*.json) for C19.  The model
+    restates the REPAIRED rules; each fixed finding's witness is executed on every run, and pre-fix behaviour on
+    the tree under test is a VIOLATION with that witness (a fixed entry suppresses nothing)."""
+    out = []
+    paths = [core.VERIF / "known_findings.json"] + sorted((core.VERIF / "known_findings.d").glob("*.json"))
+    for p in paths:
+        if not p.exists():
+            continue
+        for f in json.loads(p.read_text()).get("fixed", []):
+            if "C19" in f.get("properties", [f.get("property")]) and isinstance(f.get("witness"), dict):
+                out.append(f)
+    return out
 
 
 # --------------------------------------------------------------------------- one case
@@ -140,8 +121,6 @@ def run_case(c: dict, nrng, stats: Counter, numeric: bool = True, e2e: bool = Fa
         line = fam.line(c, shapes)
     except TypeError:
         line = fam.line(c)
-    if c["fam"] in ("biasgelu", "fmm") and FIX_STATE:
-        line += " fx=" + ",".join(sorted(FIX_STATE))
     model = L.load_ir(mp)
     known = {v.name for v in mp.graph.input}
     try:
@@ -284,14 +263,6 @@ def main(run: core.Run) -> None:
     drv = core.Driver("C19")
     stats: Counter = Counter()
     nrng = np.random.default_rng(run.seed + 12345)
-    FIX_STATE.clear()
-    FIX_STATE.update(probe_fixes())
-    run.coverage["repairs_present_in_repo"] = sorted(FIX_STATE)
-    listed_fixed = {f["id"][4:] for f in run.findings if f.get("status") == "fixed" and f["id"].startswith("C19-")}
-    if listed_fixed - FIX_STATE:
-        # a finding recorded as fixed whose witness shows the old rule again: its failures are reported below
-        run.coverage["fixed_findings_regressed"] = sorted(listed_fixed - FIX_STATE)
-
     if run.replay_path:
         body = json.loads(open(run.replay_path).read())
         c = body["case"]["case"]
@@ -308,6 +279,13 @@ def main(run: core.Run) -> None:
     cases: list[dict] = []
     if CORPUS.exists():
         cases += [json.loads(l) for l in CORPUS.read_text().splitlines() if l.strip()]
+    fixed = fixed_findings()
+    seen_w = {json.dumps(c, sort_keys=True) for c in cases}
+    for f in fixed:
+        if json.dumps(f["witness"], sort_keys=True) not in seen_w:
+            cases.append(f["witness"])
+    fixed_by_witness = {json.dumps(f["witness"], sort_keys=True): f["id"] for f in fixed}
+    run.coverage["fixed_findings_regression_witnesses"] = sorted(fixed_by_witness.values())
     n_corpus = len(cases)
     for name, fam in F.FAMILIES.items():
         got = 0
@@ -352,6 +330,19 @@ def main(run: core.Run) -> None:
             run.sample({"line": r["line"], "impl": r["obs"], "model": m, "numeric": r["res"]})
 
     repo_problems = repo_models(stats, nrng, run.tier)
+
+    # ---- regression: a fixed finding's witness must behave as the repaired rule says (tie) and pass the oracle
+    regressed = []
+    for (c, r), m in zip(results, outs):
+        fid = fixed_by_witness.get(json.dumps(c, sort_keys=True))
+        if fid and (m != r["obs"] or r["res"].startswith("FAIL") or r["res_e2e"].startswith("FAIL")):
+            regressed.append((fid, c, r, m))
+    for fid, c, r, m in regressed:
+        run.violation(
+            {"case": c, "line": r["line"], "impl": r["obs"], "model": m, "numeric": r["res"], "finding": fid},
+            f"fixed finding {fid} is back: its witness shows the pre-fix behaviour: {r['line']} :: impl {r['obs']} "
+            f":: model {m} :: {r['res']}",
+        )
 
     # ---- verdict
     findings = {f["id"]: f for f in run.open_findings()}
